@@ -349,9 +349,8 @@ Qed.
 Lemma encode_sizes_ok al : forall segs, segs_ok segs -> encode_sizes al segs = Ok tt.
 Proof.
   induction 1 as [|s r [Ha Hs] _ IH]; cbn [encode_sizes]; [reflexivity|].
-  destruct (len s >? max_segment_size) eqn:E; [lia|].
   unfold word_size. replace (len s mod 8 =? 0) with true by lia.
-  rewrite andb_false_r. exact IH.
+  rewrite andb_false_r. destruct (len s >? max_segment_size) eqn:E; [lia|]. exact IH.
 Qed.
 
 Lemma encode_frame al segs : 1 <= len segs < two32 -> segs_ok segs -> encode al segs = Ok (frame segs).
@@ -390,8 +389,8 @@ Proof.
   pose proof (len_nonneg segs). split; [|lia]. clear E0 H. revert E.
   induction segs as [|s r IH]; intros E; [constructor|].
   cbn [encode_sizes] in E.
-  destruct (len s >? max_segment_size) eqn:E1; [discriminate|].
   unfold word_size in E. destruct (len s mod 8 =? 0) eqn:E2; cbn [andb negb] in E; [|discriminate].
+  destruct (len s >? max_segment_size) eqn:E1; [discriminate|].
   constructor; [split; lia|]. now apply IH.
 Qed.
 
